@@ -742,6 +742,11 @@ func (lcp *LCPStateMachine) receiveEchoRequest(pkt *LCPPacket) error {
 		return nil
 	}
 
+	// An Echo-Request carries at least the 4-byte magic number; silently discard shorter ones
+	if len(pkt.Data) < 4 {
+		return nil
+	}
+
 	// Build Echo-Reply with our magic number
 	replyData := make([]byte, 4+len(pkt.Data)-4)
 	binary.BigEndian.PutUint32(replyData[:4], lcp.config.MagicNumber)
@@ -940,8 +945,12 @@ func (lcp *LCPStateMachine) timeout() {
 		switch lcp.state {
 		case LCPStateClosing, LCPStateStopping:
 			lcp.sendTerminateRequest("Timeout")
-		case LCPStateReqSent, LCPStateAckRcvd, LCPStateAckSent:
+		case LCPStateReqSent, LCPStateAckSent:
 			lcp.sendConfigureRequest()
+		case LCPStateAckRcvd:
+			// RFC 1661 TO+ in Ack-Rcvd: the new request is unacknowledged
+			lcp.sendConfigureRequest()
+			lcp.setState(LCPStateReqSent)
 		}
 	} else {
 		// Timeout with restart counter expired
